@@ -51,7 +51,10 @@ FreshTable(sig, mn) ==
     [cols |-> { Column(fn, ms.fields[fn]) : fn \in { f \in DOMAIN ms.fields : IsCol(ms.fields[f]) } },
      idx  |-> UNION { FieldIndexes(fn, ms.fields[fn]) : fn \in DOMAIN ms.fields }
               \cup { <<ColsOf(ms, ms.ut[i]), TRUE>> : i \in 1..Len(ms.ut) }
-              \cup { <<ColsOf(ms, ms.idx[i].fields), FALSE>> : i \in 1..Len(ms.idx) },
+              \cup { <<ColsOf(ms, ms.idx[i].fields), FALSE>> : i \in 1..Len(ms.idx) }
+              \* unique constraints are unique indexes; check constraints are kept in `chk`
+              \cup { <<ColsOf(ms, ms.cons[i].fields), TRUE>> : i \in { j \in 1..Len(ms.cons) : ms.cons[j].kind = "unique" } },
+     chk  |-> { ms.cons[i].name : i \in { j \in 1..Len(ms.cons) : ms.cons[j].kind = "check" } },
      fks  |-> { <<ColName(fn, ms.fields[fn]),
                   IF ms.fields[fn].rel \in DOMAIN sig THEN sig[ms.fields[fn].rel].table
                   ELSE "?" \o ms.fields[fn].rel>>
@@ -117,6 +120,11 @@ DbApply(mu, db, sig) ==
         THEN [db EXCEPT ![t].idx =
                 (@ \ { <<ColsOf(sig[mu.m], sig[mu.m].ut[i]), TRUE>> : i \in 1..Len(sig[mu.m].ut) })
                 \cup { <<ColsOf(sig[mu.m], mu.val[i]), TRUE>> : i \in 1..Len(mu.val) }]
+        ELSE IF mu.prop = "constraints"
+        THEN LET uq(cs) == { <<ColsOf(sig[mu.m], cs[i].fields), TRUE>> : i \in { j \in 1..Len(cs) : cs[j].kind = "unique" } }
+                 ck(cs) == { cs[i].name : i \in { j \in 1..Len(cs) : cs[j].kind = "check" } }
+             IN [db EXCEPT ![t].idx = (@ \ uq(sig[mu.m].cons)) \cup uq(mu.ival),
+                           ![t].chk = ck(mu.ival)]
         ELSE IF mu.prop = "indexes"
         THEN [db EXCEPT ![t].idx =
                 (@ \ { <<ColsOf(sig[mu.m], sig[mu.m].idx[i].fields), FALSE>> : i \in 1..Len(sig[mu.m].idx) })
@@ -162,6 +170,7 @@ SViolations == { c \in {"SchemaIsFresh", "UntouchedTablesEqual", "Realisable"} :
 RECURSIVE SetToSeq(_)
 SetToSeq(S) == IF S = {} THEN <<>> ELSE LET x == CHOOSE y \in S : TRUE IN <<x>> \o SetToSeq(S \ {x})
 DbJson(db) == [t \in DOMAIN db |-> [cols |-> SetToSeq(db[t].cols), idx |-> SetToSeq(db[t].idx),
+                                    chk |-> SetToSeq(db[t].chk),
                                     fks |-> SetToSeq(db[t].fks)]]
 
 SEmit == EmitRecords =>
